@@ -62,6 +62,16 @@ def run(ctx, ck) -> None:
         if 'non-scalar factors refused' in _o.construct:
             _o.rule = f'{ck.pid}.G2'
             ck.obs.append(_o)
+    # the symmetric tag of the band Toeplitz operator rests on the assumption that mv computes T x, which C09 establishes for the
+    # methods listed in METHODS: it is truthful only if no other method can be requested (shared with C09.Z1)
+    from . import c09 as _c09
+
+    _sub9 = type(ck)(ck.pid)
+    _c09.run(ctx, _sub9)
+    for _o in _sub9.obs:
+        if _o.rule.endswith('Z1') and 'unknown method' in _o.construct:
+            _o.rule = f'{ck.pid}.G2'
+            ck.obs.append(_o)
     kinds = all_mv(ctx)
     pol: Polarimetry = ctx.cache.get('polarimetry') or Polarimetry(world, table)
     ctx.cache['polarimetry'] = pol
